@@ -323,6 +323,11 @@ class DULServiceProvider(Thread):
         try:
             # Decode the PDU data, get corresponding FSM event
             pdu, event = self._decode_pdu(bytestream)
+            if not isinstance(pdu, P_DATA_TF):
+                # A PDU whose field values cannot be converted to a service
+                #   primitive is invalid as well
+                pdu.to_primitive()
+
             self.event_queue.put(event)
         except Exception as exc:
             # READ_PDU_EXC_F
